@@ -234,8 +234,12 @@ def r8_inherent(toks, log, assoc):
     Applied to a single extracted impl item whose unit.json entry says inherent=true."""
     # find `impl`
     i = 0
-    while toks[i].text != "impl":
+    while i < len(toks) and toks[i].text != "impl":
+        if toks[i].text in ("fn", "struct", "enum", "const", "type", "trait"):
+            return toks
         i += 1
+    if i >= len(toks):
+        return toks
     j = i + 1
     # optional generics
     depth = 0
@@ -357,6 +361,7 @@ def apply_item_rewrites(toks, log, opts=None):
     toks = r3b_error_fns(toks, log)
     toks = r14_concat(toks, log)
     toks = r4_dyn(toks, log)
+    toks = r16_pattern_params(toks, log)
     toks = r12_bytes(toks, log)
     if opts.get("inherent"):
         toks = r8_inherent(toks, log, opts.get("assoc"))
@@ -374,6 +379,9 @@ def r13_prefix_defs(toks, log, prefix, names, aliases=None):
             nxt = toks[i + 1].text if i + 1 < len(toks) else ""
             if prev in (".", "::"):
                 out.append(t); continue
+            if t.text in aliases and aliases[t.text].startswith("T:"):
+                log.add("R13", t, t.text)
+                out.append(t.clone(text=aliases[t.text][2:])); continue
             if t.text in aliases:
                 if nxt in ("(", "::"):
                     log.add("R13", t, t.text)
@@ -473,3 +481,79 @@ def r15_serde_names(toks, log):
             "spec fn serde_other__%s(v: %s) -> bool {\n    match v {\n%s    }\n}\n") % (name, name, name, arms, name, name, arms2)
     log.add("R15", like, "serde name table of " + name)
     return gen(text, like, "\n")
+
+
+def r16_pattern_params(toks, log):
+    """R16: Verus wants identifier parameters on functions that carry a contract.  `_: T` becomes `verif_argK: T`;
+    `(a, b): T` becomes `verif_argK: T` plus `let (a, b) = verif_argK;` as the first statement of the body."""
+    out = list(toks)
+    i = 0
+    while i < len(out):
+        if out[i].kind == "id" and out[i].text == "fn" and i + 2 < len(out) and out[i + 1].kind == "id":
+            j = i + 2
+            if out[j].text == "<":
+                d = 0
+                while True:
+                    if out[j].text == "<": d += 1
+                    elif out[j].text == ">":
+                        d -= 1
+                        if d == 0: break
+                    j += 1
+                j += 1
+            if out[j].text != "(":
+                i += 1; continue
+            close = match_close(out, j)
+            # split params
+            params = []
+            k = j + 1
+            start = k
+            depth = 0
+            while k <= close:
+                x = out[k].text
+                if k == close or (x == "," and depth == 0):
+                    if k > start:
+                        params.append((start, k))
+                    start = k + 1
+                elif x in OPEN or x == "<": depth += 1
+                elif x in (")", "]", "}") or x == ">":
+                    if not (x == ">" and out[k - 1].text == "-"): depth -= 1
+                k += 1
+            lets = []
+            edits = []
+            n = 0
+            for (a, b) in params:
+                n += 1
+                # find top-level colon
+                c = a
+                d = 0
+                while c < b and not (out[c].text == ":" and d == 0):
+                    if out[c].text in OPEN: d += 1
+                    elif out[c].text in (")", "]", "}"): d -= 1
+                    c += 1
+                if c >= b:
+                    continue   # self
+                pat = out[a:c]
+                ptxt = [x.text for x in pat]
+                if ptxt in (["self"], ["mut", "self"]) or (len(pat) == 1 and pat[0].kind == "id" and pat[0].text != "_") or (len(pat) == 2 and ptxt[0] == "mut"):
+                    continue
+                name = "verif_arg%d" % n
+                edits.append((a, c, name, pat))
+                if ptxt != ["_"]:
+                    lets.append((name, pat))
+            if edits:
+                # body open
+                b0 = close + 1
+                while b0 < len(out) and out[b0].text not in ("{", ";"):
+                    if out[b0].text in ("(", "["):
+                        b0 = match_close(out, b0)
+                    b0 += 1
+                if b0 < len(out) and out[b0].text == "{" and lets:
+                    ins = []
+                    for name, pat in lets:
+                        ins += gen(" let ", out[b0], " ") + [x.clone() for x in pat] + gen(" = %s;" % name, out[b0], " ")
+                    out[b0 + 1:b0 + 1] = ins
+                for (a, c, name, pat) in reversed(edits):
+                    log.add("R16", out[a], render(out[a:c]))
+                    out[a:c] = gen(name, out[a], out[a].ws)
+        i += 1
+    return out
